@@ -41,12 +41,15 @@ type wnDoc struct {
 	tags    []string // intended tag sequence, e.g. "S:p", "E:p", "X:br"
 }
 
-var wnExclude = map[string]bool{"script": true, "style": true, "plaintext": true, "image": true, "html": true, "head": true, "body": true}
+var wnExclude = map[string]bool{"plaintext": true, "image": true, "html": true, "head": true, "body": true}
 
 func (e *Env) category(name string) string {
 	sp := e.Spec
 	allowed := sp.ElementAllowed(name)
 	switch {
+	case spec.IsScriptStyle(name) && !sp.Unsafe:
+		// never survives and its text never appears (C05), whatever the skip set says
+		return "skip"
 	case !allowed && sp.Skip[name] && oracle.Void[name]:
 		return "void-skip"
 	case !allowed && sp.Skip[name]:
@@ -84,9 +87,11 @@ func wnTree(r *rand.Rand, e *Env, names []string, depth, maxDepth, maxKids int, 
 		switch {
 		case oracle.Void[name]:
 			nd.selfCl = r.Intn(3) == 0
-		case rawTextNames[name]:
-			*mk++
-			nd.kids = []*wnNode{{text: fmt.Sprintf("zqmk%06d", *mk)}}
+		case rawTextNames[name] || spec.IsScriptStyle(name):
+			if r.Intn(4) > 0 { // sometimes an empty body: <script src=x></script>
+				*mk++
+				nd.kids = []*wnNode{{text: fmt.Sprintf("zqmk%06d", *mk)}}
+			}
 		case depth < maxDepth && r.Intn(4) > 0:
 			nd.kids = wnTree(r, e, names, depth+1, maxDepth, maxKids, mk)
 		}
@@ -108,7 +113,7 @@ func wnNames(e *Env) []string {
 			out = append(out, n, n)
 		}
 	}
-	out = append(out, "br", "img", "hr", "input", "frame", "object", "frameset", "noscript", "iframe", "title", "my-x", "x-foo", "a", "a", "b")
+	out = append(out, "br", "img", "hr", "input", "frame", "object", "frameset", "noscript", "iframe", "title", "my-x", "x-foo", "a", "a", "b", "script", "style", "script", "style")
 	return out
 }
 
@@ -333,7 +338,12 @@ func wnWorkload(ctx *core.Ctx, judge func(cs *core.Case, env *Env, d *wnDoc, out
 		if cs.Index%3 == 0 {
 			env = NewEnv(fixed[(cs.Index/3)%len(fixed)])
 		} else {
-			env = NewEnv(spec.RandomOps(cs.R, spec.GenOpts{Styles: cs.Index%5 == 0}))
+			ops := spec.RandomOps(cs.R, spec.GenOpts{Styles: cs.Index%5 == 0, ScriptStyle: cs.Index%4 == 1})
+			if cs.Index%8 == 1 {
+				// AllowUnsafe(true): script and style are ordinary elements (allowed, or disallowed skip elements)
+				ops = append(ops, spec.Op{K: spec.KUnsafe, B: true})
+			}
+			env = NewEnv(ops)
 		}
 		names := wnNames(env)
 		lc := core.LocalCounts{}
@@ -380,7 +390,7 @@ func wnWorkload(ctx *core.Ctx, judge func(cs *core.Case, env *Env, d *wnDoc, out
 
 func runC08(ctx *core.Ctx) {
 	ctx.Rule = "well-nested documents (random forests over kept / dropped / bare-dropped / void / skip-content / pattern-matched / raw-text elements, depth <= 5, unique marker word in every text node) under fixed and random policies incl. modified skip sets and element patterns, plus ALL forests of <= N nodes over a 10-label alphabet for 4 fixed policies (exhaustive); oracle: markers planted inside a disallowed skip-content element are absent from the output, markers outside are present; non-trivial = document has at least one marker, distinct by (policy, document)"
-	ctx.Assume("script/style bodies are C05's and are not generated here", "an element the policy allows is never a skipped region, even when it is dropped for lack of attributes", "void elements have no content, so they never open a skipped region")
+	ctx.Assume("script/style are generated too: without AllowUnsafe their body is always a skipped region (C05), text after them is outside", "an element the policy allows is never a skipped region, even when it is dropped for lack of attributes", "void elements have no content, so they never open a skipped region")
 	wnWorkload(ctx, c08Judge, "doc")
 	ctx.MinNontrivial(int64(ctx.N(20000, 500000)))
 	ctx.Floor("markers_inside_checked", 20000)
